@@ -12,6 +12,18 @@ CHECKS = {
          "Instruction length is measured without the CPU's own boundary notion (cycles until a following sentinel instruction takes effect) for all 501 defined opcodes x 16 flag nibbles, and between boundaries for every retired instruction of generated programs and of blargg instr_timing/mem_timing and the mooneye *_timing ROMs.",
          "Trusts the documented cycle table of the reference (cross-checked against instruction_metadata.go and the ROMs' own verdicts); HALT/STOP excluded (C05/C01).",
          "DESIGN.md §4 C02"),
+ "C03": ("per-cycle memory observation: write cycle by read-back after every machine cycle, read cycle by substituting the addressed byte during exactly one cycle; oracle = access schedule of the reference model",
+         "Every memory-accessing opcode (incl. CB (HL) forms, conditional taken/not taken) x five location classes x 16 flag nibbles: each data write is timed by per-cycle read-back, each data read by per-cycle value substitution; exactly one cycle must respond and it must be the documented one. The mem_timing and mooneye *_timing ROM verdicts are regression-checked.",
+         "Trusts the documented access schedule in internal/ref; pokes through Mapper.Write between CPU cycles stand for hardware changing memory between cycles.",
+         "DESIGN.md §4 C03"),
+ "C04": ("lock-step trace monitor with a reference interrupt controller; exhaustive IME x IE x IF boundary states, all short instruction sequences with requests injected at every machine-cycle offset, generated programs and interrupt ROMs",
+         "At every instruction boundary of every run the reference decides dispatch/no dispatch; vector, pushed return address, IME, the IF bit cleared, IE/IF frame condition and the 5-cycle length are compared. All 2x32x32 boundary states x 9 following instructions and all sequences up to length 4 (quick) / 5 (thorough) over {EI, DI, RETI, NOP, INC B, LD A,n, LDH (IF),A, LDH (IE),A} with requests at every cycle offset are executed.",
+         "Requests raised during the five dispatch cycles may be the one served (either accepted); EI;HALT and EI-with-IME-already-set followed by an immediate dispatch are outside the statement.",
+         "DESIGN.md §4 C04"),
+ "C05": ("lock-step trace monitor with a reference HALT/halt-bug model; HALT x IME x pending x every following opcode x idle length 0..48, requests through the request path, the real timer, and unenabled requests",
+         "Every cycle after a HALT is checked: no architectural change while idle, 6-cycle dispatch with the right return address when IME is set, resumption without dispatch or IF change when IME is clear, and the double execution of the following byte when a request was already pending; plus generated programs and the blargg/mooneye halt ROMs.",
+         "IME=0 wake-up latency of 0 or 1 cycle accepted (not stated); CB prefix after a bugged HALT and EI;HALT not judged.",
+         "DESIGN.md §4 C05"),
  "C22": ("reference-model monitor over the complete reachable controller state space (BFS), real Controller driven through Mapper FF00",
          "Every transition of the reachable joypad state space (576 states x 272 events) is executed on the real controller and JOYP compared with a 10-line reference under all four select values; exhaustive for the finite space, so the residual risk is the reference itself.",
          "Trusts the reference joypad (held sets, active-low, AND of selected groups) as the reading of the statement.",
